@@ -308,7 +308,7 @@ pub fn enumerate(bases: &[Base], ctx: &Ctx, want: &dyn Fn(u64) -> bool, f: &mut 
         }
     }
     // (c) random bit flips, (d) random bytes behind a valid file code
-    let n_flip: u64 = if cfg!(miri) { 4 } else if thorough { 400_000 } else { 12_000 };
+    let n_flip: u64 = if cfg!(miri) { 4 } else if thorough { 3_000_000 } else { 100_000 };
     for (bi, b) in bases.iter().enumerate() {
         for k in 0..n_flip / bases.len() as u64 + 1 {
             case!({
@@ -328,7 +328,7 @@ pub fn enumerate(bases: &[Base], ctx: &Ctx, want: &dyn Fn(u64) -> bool, f: &mut 
             });
         }
     }
-    let n_rand: u64 = if cfg!(miri) { 4 } else if thorough { 300_000 } else { 10_000 };
+    let n_rand: u64 = if cfg!(miri) { 4 } else if thorough { 2_000_000 } else { 100_000 };
     for k in 0..n_rand {
         case!({
             let mut r = Rng::derive(ctx.seed, &[tag("c07-rand"), k]);
@@ -564,7 +564,7 @@ fn per_type(ctx: &Ctx) -> usize {
     if cfg!(miri) {
         1
     } else {
-        ctx.pick(1, 3)
+        ctx.pick(2, 6)
     }
 }
 
